@@ -28,6 +28,7 @@ pub fn space_for(tier: Tier) -> Space {
     }
     s.list("flagstrings", 1 + 11 + 121 + 1331, 256);
     s.list("whitespace under x", xws_cases().len() as u64, 64);
+    s.list("single-character edits", edit_cases().len() as u64, 64);
     s
 }
 
@@ -47,8 +48,9 @@ fn flag_string(mut idx: u64) -> String {
 /// Acceptance under flag x: base patterns (nested class subtractions, groups,
 /// quantifiers, escapes) with one whitespace character inserted at every gap;
 /// the reference verdict is that of the reference-stripped text.
-fn xws_cases() -> Vec<String> {
+pub fn xws_cases() -> Vec<String> {
     let bases = [
+        "(?:ab)+c", "x(a|(?:b))", "a*?b", "(a)\\1", "a\\$",
         "[a-[b]]", "[a-c-[b]]", "[^a-[b]]", "[a-[b-[c]]]", "[a-[b]]+c", "(?:a)[b-[c]]", "a{1,2}", "(?:a|b)*", "\\[a\\]b", "\\p{Lu}", "a\\1", "(a)\\1",
         "[a b]", "[\\]a]", "a|b", "^a$", "\\d+", "[a-c]{2,}",
     ];
@@ -64,6 +66,44 @@ fn xws_cases() -> Vec<String> {
             }
         }
     }
+    v
+}
+
+/// Single-character edits (delete, duplicate, replace by a metacharacter) of
+/// valid patterns that use nesting: class subtraction, groups, counted
+/// quantifiers, back-references.
+fn edit_cases() -> Vec<String> {
+    let bases = [
+        "[a-[b]]", "[a-c-[b]]", "[^a-[b]]", "[a-[b-[c]]]", "x[a-[b]]y", "([a-[b]])", "[a-[b]]|c", "(?:[^a-[b]]|c)d", "(a*){2,3}", "(a|){1,2}b", "^{1,2}a",
+        "a${2,3}", "(a?){1,4}?b", "(a)\\1{2}", "(?:a(b))\\2", "\\p{Lu}+", "[\\p{L}-[\\p{Lu}]]", "a{2,}?b",
+    ];
+    let subs = [']', '[', '-', '(', ')', '{', '}', ',', '?', '\\', 'a', '2', '0'];
+    let mut v = vec![];
+    for b in bases {
+        let cs: Vec<char> = b.chars().collect();
+        for k in 0..cs.len() {
+            let mut del = cs.clone();
+            del.remove(k);
+            v.push(del.iter().collect::<String>());
+            let mut dup = cs.clone();
+            dup.insert(k, cs[k]);
+            v.push(dup.iter().collect::<String>());
+            for s in subs {
+                if cs[k] != s {
+                    let mut r = cs.clone();
+                    r[k] = s;
+                    v.push(r.iter().collect::<String>());
+                }
+            }
+            if k + 1 < cs.len() {
+                let mut sw = cs.clone();
+                sw.swap(k, k + 1);
+                v.push(sw.iter().collect::<String>());
+            }
+        }
+    }
+    v.sort();
+    v.dedup();
     v
 }
 
@@ -138,6 +178,43 @@ impl Check for C07 {
                     }
                 }
                 out.sample(J::obj(vec![("pattern", J::s(text)), ("flags", J::s("x")), ("stripped", J::s(&stripped))]));
+            }
+            return;
+        }
+        if let SegKind::List { name: "single-character edits" } = seg.kind {
+            let cases = edit_cases();
+            for i in lo..hi {
+                let text = &cases[i as usize];
+                let v = refparse::parse(text, Dialect::XPath, &ctx.ucd);
+                out.inc("states");
+                let got = imp::compile(text, "", false);
+                let case = Case::new(&scope_name, text, "").api("compile");
+                if got.is_crash() {
+                    out.inc("inconclusive_crash");
+                    continue;
+                }
+                match (&v, &got) {
+                    (Verdict::Unclear(_), _) => out.inc("ref_unclear_skipped"),
+                    (Verdict::Valid(_), Out::Ok(_)) => {
+                        out.inc("validated");
+                        out.inc("nontrivial");
+                        out.inc("ref_valid");
+                    }
+                    (Verdict::Invalid(_), Out::Err(EK::Syntax)) => {
+                        out.inc("validated");
+                        out.inc("nontrivial");
+                        out.inc("ref_invalid");
+                    }
+                    (Verdict::Valid(_), g) => {
+                        out.inc("validated");
+                        out.fail("C07", &case, "Rejects", "Ok (grammar-valid)", &g.show(), "");
+                    }
+                    (Verdict::Invalid(why), g) => {
+                        out.inc("validated");
+                        out.fail("C07", &case, if g.ok().is_some() { "Accepts" } else { "WrongErrorKind" }, &format!("Err(Syntax): {}", why), if g.ok().is_some() { "Ok" } else { "another error" }, "");
+                    }
+                }
+                out.sample(J::obj(vec![("edited_pattern", J::s(text))]));
             }
             return;
         }
